@@ -113,11 +113,15 @@ impl EepromRange {
         final(self).wf(),
         final(self).end == old(self).end,
         final(self).reader.chunk() == old(self).reader.chunk(),
+        final(self).reader.dev() == old(self).reader.dev(),
         r is Ok ==> ({
             let n = r->Ok_0 as int;
             let k = (n + 1) / 2;                       // words written
             let w0 = old(self).byte_pos as int / 2;
             &&& 0 <= n <= buf@.len()
+            &&& (n % 2 == 1 ==> n == buf@.len())     // whole words, except for an odd trailing byte
+            &&& final(self).byte_pos as int == (if old(self).byte_pos + 2 * k > 0xffff { 0xffff } else { old(self).byte_pos + 2 * k })
+            &&& forall|i: int| 0 <= i < k ==> #[trigger] word_written(old(self).reader.dev(), (w0 + i) as u16, buf@[2 * i], word_hi(buf@, i))
             &&& final(self).reader.wlog().len() == old(self).reader.wlog().len() + k
             &&& forall|i: int| 0 <= i < k ==> #[trigger] final(self).reader.wlog()[old(self).reader.wlog().len() + i]
                     == ((w0 + i) as u16, buf@[2 * i], if 2 * i + 1 < buf@.len() { buf@[2 * i + 1] } else { 0u8 })
@@ -134,6 +138,8 @@ impl EepromRange {
 @loop 0
     invariant
         self.wf(), self.end == old(self).end, self.reader.chunk() == old(self).reader.chunk(),
+        self.reader.dev() == old(self).reader.dev(),
+        forall|i: int| 0 <= i < (written as int + 1) / 2 ==> #[trigger] word_written(old(self).reader.dev(), (pos0 / 2 + i) as u16, buf0[2 * i], word_hi(buf0, i)),
         0 <= written as int <= buf0.len(),
         buf@ == buf0.subrange(written as int, buf0.len() as int),
         len == buf0.len(),
